@@ -80,7 +80,8 @@ def run(prog, rep):
         rep.check(fmt_ok, "TAB-8", "%s iterates the object's own rdf table" % sf.name, "for k in <obj>.format().rdf_map_keys",
                   "%s does not iterate <object>.format().rdf_map_keys" % sf.name, sf.where)
         px = Expander(pf)
-        rl = [n for n in walk_no_nested(pf.node) if isinstance(n, ast.For) and px.text(n.iter) == "%s.rdf_map_items" % fname]
+        rl = [n for n in walk_no_nested(pf.node) if isinstance(n, ast.For)
+              and _strip_format_module(prog, pf, px.text(n.iter)) == "%s.rdf_map_items" % fname]
         rep.check(len(rl) == 1, "TAB-8", "%s iterates %s.rdf_map_items" % (pf.name, fname), "ok",
                   "%s does not iterate the %s table" % (pf.name, fname), pf.where, witness="attributes of another kind are read / own ones missed")
 
@@ -179,7 +180,8 @@ def run(prog, rep):
             if v == base_type:
                 rep.ok("PAIR-2", "save_section: default type", base_type, where(ss, n.ast))
                 continue
-            under_switch = known(g, n, lambda lf, me=me: "SW" if unparse(lf) == "%s.rdf_subclassing" % me else None, lambda a: a["SW"], ["SW"])
+            under_switch = known(g, n, lambda lf, me=me: "SW" if unparse(lf) == "%s.rdf_subclassing" % me else None, lambda a: a["SW"], ["SW"],
+                                 expand_test=lambda t0, br: x.expand(t0, br))
             want = ("URIRef(%s)" % v, "RDFS.subClassOf", "URIRef(%s)" % base_type)
             decl = [t[3] for t in str_ if t[:3] == want]
             decl_ok = any((m.id == n.id or g.dominates(n, m)) and all(g.dominates(m, p) or not g.dominates(n, p) for _, p in g.exit.pred) for m in decl)
@@ -278,7 +280,9 @@ def run(prog, rep):
     for fname in ("Document", "Section", "Property"):
         pf = Rd.lookup_method(PARSE[fname])
         uri = pf.params[1]
-        rep.check("%s.split('#', 1)[1]" % uri in unparse(pf.node), "RID-1", "%s recovers the id from the URI" % pf.name, "ok",
+        ix = Expander(pf, inline=prog)
+        idvals = [ix.text(n.value) for n in walk_no_nested(pf.node) if isinstance(n, ast.Assign)]
+        rep.check("%s.split('#', 1)[1]" % uri in idvals or "%s.split('#', 1)[1]" % uri in unparse(pf.node), "RID-1", "%s recovers the id from the URI" % pf.name, "ok",
                   "%s does not take the id from %s.split('#', 1)[1]" % (pf.name, uri), pf.where, witness="imported ids differ from the exported ones")
     rep.assume("rdflib's Graph/Seq/serialisers behave as documented")
 
@@ -287,7 +291,7 @@ def triples(prog, f):
     """[(subject, predicate, object, node, func)] of every <x>.graph.add((s, p, o)) in f and its private helpers (expanded texts)."""
     out = []
     for c, node, wf in effect_calls(prog, f, lambda c: call_name(c).endswith(".graph.add") and len(c.args) == 1
-                                    and isinstance(c.args[0], ast.Tuple) and len(c.args[0].elts) == 3):
+                                    and isinstance(c.args[0], ast.Tuple) and len(c.args[0].elts) == 3, expanded=True):
         t = c.args[0].elts
         out.append((unparse(t[0]), unparse(t[1]), unparse(t[2]), node, wf))
     return out
@@ -352,3 +356,17 @@ def _manual_counter(fnode, values):
             if len(inits) == 1 and isinstance(inits[0].value, ast.Constant) and inits[0].value.value == 1 and incs.count(cvar) == 1 and used:
                 return True
     return False
+
+
+def _strip_format_module(prog, f, text):
+    """'odmlfmt.Section.rdf_map_items' -> 'Section.rdf_map_items' when the leading name is an alias of the odml.format module"""
+    head = text.split(".", 1)[0]
+    imp = f.module.imports.get(head)
+    if imp is not None:
+        try:
+            r = prog.resolve_import(imp)
+        except Exception:
+            r = None
+        if getattr(r, "name", None) == "odml.format" and "." in text:
+            return text.split(".", 1)[1]
+    return text
